@@ -22,3 +22,10 @@ CHECKS["C14"] = dict(
     design_ref="DESIGN.md 3 C14",
     note="The Lua accessor's trim is modelled (pattern re-read from the Lua file) rather than executed; values are plain text; replays through parse/expand/#invoke use a stub for the absent ustring submodule.",
 )
+CHECKS["C18"] = dict(
+    engine="E1 CrossHair",
+    technique="CrossHair symbolic execution of the real parser functions against reference definitions; strings symbolic, integer arguments and locale triples enumerated by the generator",
+    text="For every subject string up to the bound (all characters symbolic) and every enumerated integer argument, #len #pos #rpos #sub #replace #explode #titleparts padleft padright lc uc lcfirst ucfirst equal reference definitions transcribed from the MediaWiki manuals; formatnum|R inverts formatnum for numerals with symbolic digits under every distinct (decimal, separator, grouping) triple of the shipped locale files; plural selects by value. Confirmed over all paths per condition; counterexamples replayed through Wtp.expand.",
+    design_ref="DESIGN.md 3 C18",
+    note="Reference definitions in refs/strfuncs.py are the oracle; set() inside parserfns is stubbed for the formatnum conditions; #titleparts region of the recorded finding is excluded; #expr precedence only in the thorough tier; urlencode not covered.",
+)
